@@ -3,5 +3,61 @@
 #![allow(missing_docs, unused_imports, unused, dead_code, unreachable_pub)]
 #![allow(clippy::all, clippy::pedantic)]
 
-// wrappers for the obs property group
+// wrappers for the obs property group (C38): build server records with chosen
+// counter values (the counter's field is private) and read them back as numbers.
 use super::m;
+
+use std::net::SocketAddr;
+
+use serde::Deserialize;
+use serde::de::IntoDeserializer;
+
+use crate::daemon::config::ServerConfig;
+use crate::daemon::server::{Counter, ServerStats};
+use crate::daemon::system::ServerData;
+
+pub const N_COUNTERS: usize = 11;
+
+fn counter(v: u64) -> Counter {
+    // Counter::deserialize just wraps the u64 it is handed; no JSON involved
+    let d: serde::de::value::U64Deserializer<serde::de::value::Error> = v.into_deserializer();
+    Counter::deserialize(d).expect("u64 deserializer cannot fail")
+}
+
+pub fn server_stats(v: [u64; N_COUNTERS]) -> ServerStats {
+    ServerStats {
+        received_packets: counter(v[0]),
+        accepted_packets: counter(v[1]),
+        denied_packets: counter(v[2]),
+        ignored_packets: counter(v[3]),
+        rate_limited_packets: counter(v[4]),
+        response_send_errors: counter(v[5]),
+        nts_received_packets: counter(v[6]),
+        nts_accepted_packets: counter(v[7]),
+        nts_denied_packets: counter(v[8]),
+        nts_rate_limited_packets: counter(v[9]),
+        nts_nak_packets: counter(v[10]),
+    }
+}
+
+pub fn server_stats_values(s: &ServerStats) -> [u64; N_COUNTERS] {
+    [
+        s.received_packets.get(),
+        s.accepted_packets.get(),
+        s.denied_packets.get(),
+        s.ignored_packets.get(),
+        s.rate_limited_packets.get(),
+        s.response_send_errors.get(),
+        s.nts_received_packets.get(),
+        s.nts_accepted_packets.get(),
+        s.nts_denied_packets.get(),
+        s.nts_rate_limited_packets.get(),
+        s.nts_nak_packets.get(),
+    ]
+}
+
+/// a server record as the system publishes it on the watch channel
+pub fn server_data(listen: SocketAddr, counters: [u64; N_COUNTERS]) -> ServerData {
+    let config = ServerConfig::try_from(listen.to_string().as_str()).expect("socket address round trip");
+    ServerData { stats: server_stats(counters), config }
+}
